@@ -47,16 +47,16 @@ Proof. vm_compute. reflexivity. Qed.
 
 (* ---- witness shapes *)
 
-Definition ent (c : cat) (code : nat) : entry := mkentry c code false false false false false false [].
+Definition ent (c : cat) (code : nat) : entry := mkentry c code false false false false false false [] false.
 Definition ppd_batch : batch :=
   mkbatch (KSec PPD) (Some (mkheader PPD Mixed)) true false false
-    [Some (mkentry CFwd 22 false false false false false false [true]); Some (ent CFwd 27)] [].
+    [Some (mkentry CFwd 22 false false false false false false [true] false); Some (ent CFwd 27)] [].
 Definition mte_batch : batch :=
   mkbatch (KSec MTE) (Some (mkheader MTE Debits)) true false false
-    [Some (mkentry CFwd 27 true false false false false false [])] [].
+    [Some (mkentry CFwd 27 true false false false false false [] false)] [].
 Definition cor_batch : batch :=
   mkbatch (KSec COR) (Some (mkheader COR Credits)) true false false
-    [Some (mkentry CNOC 21 false true false false false false [])] [].
+    [Some (mkentry CNOC 21 false true false false false false [] false)] [].
 Definition adv_batch : batch :=
   mkbatch (KSec ADV) (Some (mkheader ADV Advices)) false true false [] [Some (mkadv CFwd 81 false); Some (mkadv CFwd 82 true)].
 Definition iat_b : iat_batch :=
@@ -82,7 +82,7 @@ Proof. vm_compute. repeat split; eauto. Qed.
 Lemma mte_without_addenda02 :
   let b := set_entries [Some (ent CFwd 27)] mte_batch in
   wf_batch b = true /\ (exists s o, batch_validate b tt [] = ERR s o) /\
-  (exists s o, batch_validate (set_entries [Some (mkentry CRet 26 false false false true false false [])] mte_batch) tt [] = OK tt s o).
+  (exists s o, batch_validate (set_entries [Some (mkentry CRet 26 false false false true false false [] false)] mte_batch) tt [] = OK tt s o).
 Proof. vm_compute. repeat split; eauto. Qed.
 
 (* refutation: each class of ill-formed shape makes some operation panic in the model (each witness is
@@ -94,7 +94,7 @@ Definition nil_control_file : file := mkfile [Some (set_control false ppd_batch)
 Definition nil_advcontrol_file : file := mkfile [Some (set_adv false adv_batch)] [].
 Definition nil_entry_file : file := mkfile [Some (set_entries [Some (ent CFwd 22); None] ppd_batch)] [].
 Definition nil_addenda_file : file :=
-  mkfile [Some (set_entries [Some (mkentry CFwd 22 false false false false false false [false])] ppd_batch)] [].
+  mkfile [Some (set_entries [Some (mkentry CFwd 22 false false false false false false [false] false)] ppd_batch)] [].
 Definition nil_iat_header_file : file := mkfile [] [mkib None true (ib_entries iat_b)].
 Definition nil_iat_control_file : file := mkfile [] [mkib (ib_header iat_b) false (ib_entries iat_b)].
 Definition nil_iat_entry_file : file := mkfile [] [mkib (ib_header iat_b) true [None]].
@@ -145,7 +145,7 @@ Definition null_doc : file :=
   mkfile [None;
           Some (mkbatch KBase None true true false [Some (ent CFwd 22)] []);
           Some (mkbatch KBase (Some (mkheader PPD Mixed)) false false false
-                  [None; Some (mkentry CFwd 22 false false false false false false [false; true]); None] [None])]
+                  [None; Some (mkentry CFwd 22 false false false false false false [false; true] false); None] [None])]
          [mkib None false [None];
           mkib (Some (mkih Mixed false)) false
             [None; Some (mkie CFwd 22 true true true true true true true false false [false] [false; true])]].
@@ -161,10 +161,10 @@ Definition sample_requests : list route :=
   [RCreateFile 1 (BJson null_doc); RCreateFile 2 (BText good_file); RCreateFile 3 BNoFile;
    RGetFiles; RGetFile 1; RBuild 1; RContents 2; RValidateGet 2; RValidatePost 9;
    RCreateBatch 1 (mkfile [Some ppd_batch] []); RGetBatches 1; RGetBatch 1 0; RDeleteBatch 1 0;
-   RBalance 2 true; RSegmentID 2 10 11; RSegment BNoFile 12 13; RSegment (BJson null_doc) 14 15;
+   RBalance 2 true 17; RSegmentID 2 10 11; RSegment BNoFile 12 13; RSegment (BJson null_doc) 14 15;
    RFlatten 2 16; RDeleteFile 3; RPing; RPreflight].
 
 Lemma handlers_example :
   forallb (route_ok true) sample_requests = true /\
-  exists r o, serve sample_requests [] [] = OK tt r o /\ 5 <=? length r = true.
+  exists r o, serve sample_requests [] [] = OK tt r o /\ 4 <=? length r = true.
 Proof. vm_compute. split; [reflexivity|]. eexists. eexists. split; reflexivity. Qed.
